@@ -153,6 +153,7 @@ fn main() {
         "C08" => c08,
         "C09" => c09,
         "C10" => c10,
+        "C11" => c11,
         "C12" => c12,
         "C13" => c13,
         "C14" => c14,
